@@ -10,23 +10,47 @@ The property predicate is evaluated directly on the implementation in pure
 Python as well (oracle).  (2) failing with (3) and the oracle passing is a
 model disagreement, not a property violation.
 """
+import collections
+import collections.abc
 import itertools
+import random
+import types
 
 ID = "C20"
 PROPS = "Props/C20.v"
 EXTRACT = "extract/ExC20.v"
 OBLIGATION = "toposort"
-THEOREMS = ["C20_topo", "C20_checker_sound", "C20_checker_complete", "C20_trace_inclusion", "C20_hyps_satisfiable"]
+THEOREMS = ["C20_topo", "C20_checker_sound", "C20_checker_complete", "C20_trace_inclusion", "C20_hyps_satisfiable",
+            "C20_any_order", "C20_hypotheses_needed"]
 RULE = ("random DAGs (linear, forks, merges up to 6 parents, repeated parents, several roots, disconnected "
-        "components), ids relabelled at random, log order shuffled; plus deep histories of 1100-2600 (thorough: up to 12000) "
-        "revisions in a row - linear, mostly linear with side branches, merge ladders - newest-first, oldest-first and "
-        "shuffled; every log is also sorted with its ids as 20-byte strings / str / tuples / mixed types and parents as tuples "
-        "(same order required); non-trivial = at least one merge "
-        "(>=2 parents) or >=2 roots; distinct = distinct (log) request")
+        "components, only isolated revisions, complete DAGs, one octopus merge of everything, parent lists that repeat one parent), "
+        "ids relabelled at random (0 included), log order shuffled / oldest-first / newest-first / breadth-first from the heads "
+        "(the order of Storage.revision_log()); plus deep histories of 1100-2600 (thorough: up to 12000) "
+        "revisions in a row - linear, mostly linear with side branches, merge ladders - and wide ones (one root with 1100 children, "
+        "one merge with 1100 parents, a parent named 1200 times, a comb; thorough: 1500 and 6000) newest-first, oldest-first and "
+        "shuffled.  Every log is sorted several times, the property being evaluated on every output: with its ids as "
+        "20-byte strings / str / tuples / mixed types and parents as tuples, as a generator, as an iterator (logs of > 5 revisions: "
+        "one of the three per case), and (seeded by the "
+        "case's fields v, k: one combination per case in the quick tier - two for logs of <= 5 revisions -, three in the thorough tier) "
+        "in random combinations of: id type (also minimal byte strings with b'' for 0, '' for 0, negative ints, "
+        "ids that all have the same hash, parent references equal to the id but of another type: float/bool for int, a bytes "
+        "subclass for bytes, real Revision.to_dict() dictionaries with computed sha1 ids), parents container (list, tuple, deque, "
+        "a Sequence without __bool__, UserList, frozenset, dict keys view), log container (list, tuple, deque, dict values view, "
+        "generator, iterator, an object with only __iter__), revision mapping (dict, extra keys named like the sort's own "
+        "variables, OrderedDict, dict subclass, read-only mappingproxy), consumer (list(); next() by hand while annotating each "
+        "yielded revision and rebinding its parents to an equal tuple; two sorts of the same log interleaved next to an "
+        "abandoned third).  The yielded dictionaries must still carry the id and parents they had in the log.  "
+        "non-trivial = at least one merge (>=2 parents) or >=2 roots; distinct = distinct (log) request")
 TRUSTED = ["Python dict/deque/defaultdict semantics as modelled in model/Topo.v (dict keeps last value per key, "
            "defaultdict(list) appends, deque FIFO generalised to an arbitrary pick oracle)"]
 ASSUMPTIONS = ["revision ids are pairwise distinct, every parent is in the log, the parent relation is acyclic "
-               "(the property's own hypotheses)"]
+               "(the property's own hypotheses; C20_hypotheses_needed shows on the model what the "
+               "code does without them: a revision listed twice is yielded twice, a revision whose parent is missing is never yielded)",
+               "ids are hashable and parents is a sized, re-iterable container (an unhashable id or a one-shot iterable of parents "
+               "makes /repo's toposort raise TypeError: such a log cannot be sorted at all)",
+               "the caller does not change the id or the parents of a revision, nor the log, while it consumes the generator "
+               "(/repo reads rev['id'] again after the yield: a consumer that rebinds it loses the children; adding keys and "
+               "rebinding parents to an equal container IS exercised)"]
 
 
 def enc_log(log):
@@ -43,7 +67,7 @@ def gen_dag(rng, n, shape):
     """returns list of (id, parents) in creation (topological) order with ids 0..n-1"""
     log = []
     for i in range(n):
-        if i == 0 or shape == "roots" and rng.random() < 0.3:
+        if i == 0 or shape == "isolated" or shape == "roots" and rng.random() < 0.3:
             ps = []
         elif shape == "linear":
             ps = [i - 1]
@@ -55,6 +79,13 @@ def gen_dag(rng, n, shape):
         elif shape == "components":
             lo = (i // 5) * 5
             ps = [rng.randrange(lo, i)] if i > lo else []
+        elif shape == "full":                                # every earlier revision is a parent (in-degree up to 12)
+            ps = list(range(i)) if i <= 12 else rng.sample(range(i), 12)
+            rng.shuffle(ps)
+        elif shape == "octopus":                             # the last revision merges all the others (roots or short lines)
+            ps = list(range(i)) if i == n - 1 else [i - 1] if rng.random() < 0.3 else []
+        elif shape == "repeat":                              # a parent list that names ONE parent several times
+            ps = [rng.randrange(i)] * rng.choice([1, 2, 2, 3, 5])
         else:
             k = rng.choice([0, 1, 1, 2, 3])
             ps = [rng.randrange(i) for _ in range(k)]
@@ -62,21 +93,47 @@ def gen_dag(rng, n, shape):
     return log
 
 
+def _bfs_from_heads(dag):
+    """the order of Storage.revision_log(): breadth-first from the heads along the parent links, each revision once"""
+    by_id = {i: ps for i, ps in dag}
+    named = {p for _, ps in dag for p in ps}
+    todo = collections.deque(i for i, _ in reversed(dag) if i not in named)
+    seen, out = set(), []
+    while todo:
+        i = todo.popleft()
+        if i in seen:
+            continue
+        seen.add(i)
+        out.append([i, by_id[i]])
+        todo.extend(by_id[i])
+    return out
+
+
+ORDERS = ["oldest-first", "newest-first", "bfs-from-heads", "shuffled"]
+
+
 def gen(rng, tier):
-    n_cases = 1500 if tier == "quick" else 60000
+    n_cases = 1000 if tier == "quick" else 60000
+    extra = 1 if tier == "quick" else 3        # random combinations per case (the field k), besides the three fixed ones
     cases = [{"log": []}, {"log": [[7, []]]}, {"log": [[2, [1, 1]], [1, []]]}, {"log": [[2, [1]], [1, [0]], [0, []]]}]
-    shapes = ["linear", "forks", "merges", "roots", "components", "mixed"]
+    shapes = ["linear", "forks", "merges", "roots", "components", "mixed", "isolated", "full", "octopus", "repeat"]
     for k in range(n_cases):
         n = rng.choice([1, 2, 3, 4, 5, 8, 13, 25, 40]) if tier == "quick" else rng.randrange(0, 60)
         dag = gen_dag(rng, n, shapes[k % len(shapes)])
         relabel = list(range(0, 3 * n + 2))      # 0 included: a falsy id is an id like any other
         rng.shuffle(relabel)
         dag = [[relabel[i], [relabel[p] for p in ps]] for i, ps in dag]
-        for _ in range(2):
+        for order in ("shuffled", ORDERS[(k // len(shapes)) % len(ORDERS)]):
             perm = dag[:]
-            rng.shuffle(perm)
-            cases.append({"log": perm})
+            if order == "shuffled":
+                rng.shuffle(perm)
+            elif order == "newest-first":
+                perm.reverse()
+            elif order == "bfs-from-heads":
+                perm = _bfs_from_heads(dag)
+            cases.append({"log": perm, "v": rng.randrange(1 << 30), "k": extra if n > 5 else 2, "o": order})
     # deep histories: thousands of revisions in a row (longer than the interpreter's recursion limit), as real logs are
+    big = []
     for k, n in enumerate([1100, 1500, 2600] if tier == "quick" else [1001, 1100, 1500, 2600, 5000, 12000, 1300, 1700, 3100]):
         dag = []
         for i in range(n):
@@ -86,13 +143,21 @@ def gen(rng, tier):
             if k % 3 == 2 and i > 1 and i % 2 == 0:                  # a ladder: every other revision also merges i-2
                 ps.append(i - 2)
             dag.append([i + 1, [p + 1 for p in ps]])
-        for order in ("newest-first", "oldest-first", "shuffled"):
+        big.append((dag, ("newest-first", "oldest-first", "shuffled")))
+    # wide histories: the same sizes sideways (one revision with very many children / parents / the same parent very often)
+    for n in ([1100] if tier == "quick" else [1500, 6000]):
+        big.append(([[0, []]] + [[i, [0]] for i in range(1, n)], ("newest-first", "shuffled")))                       # fan-out
+        big.append(([[i, []] for i in range(n - 1)] + [[n - 1, list(range(n - 1))]], ("newest-first", "shuffled")))  # octopus
+        big.append(([[0, []]] + [[i, [i - 1, 0] if i > 1 else [0]] for i in range(1, n)], ("newest-first", "shuffled")))  # comb
+    big.append(([[5, []], [0, [5]], [9, [5] * 1000 + [0] + [5] * 200]], ("newest-first", "oldest-first")))           # one parent 1200 times
+    for dag, orders in big:
+        for order in orders:
             perm = dag[:]
             if order == "newest-first":
                 perm.reverse()
             elif order == "shuffled":
                 rng.shuffle(perm)
-            cases.append({"log": perm})
+            cases.append({"log": perm, "v": rng.randrange(1 << 30), "o": order})
     if tier == "thorough":
         # exhaustive: all DAGs on <= 4 nodes (parents among earlier nodes, as sets) x all permutations
         for n in range(0, 5):
@@ -100,7 +165,7 @@ def gen(rng, tier):
             for combo in itertools.product(*choices):
                 dag = [[i + 1, [p + 1 for p in ps]] for i, ps in enumerate(combo)]
                 for perm in itertools.permutations(dag):
-                    cases.append({"log": list(perm)})
+                    cases.append({"log": list(perm), "v": rng.randrange(1 << 30), "k": 1})
     return cases
 
 
@@ -114,15 +179,64 @@ def classify(c):
     ks = ["n=%s" % (len(log) if len(log) < 6 else "6-20" if len(log) <= 20 else "21-999" if len(log) < 1000 else ">=1000")]
     if any(len(ps) >= 2 for _, ps in log):
         ks.append("merge")
+    if any(len(ps) >= 100 for _, ps in log):
+        ks.append("merge>=100-parents")
     if any(len(set(ps)) < len(ps) for _, ps in log):
         ks.append("repeated-parent")
     if sum(1 for _, ps in log if not ps) >= 2:
         ks.append("multi-root")
+    if log and all(not ps for _, ps in log):
+        ks.append("only-roots")
+    if "o" in c:
+        ks.append("order:" + c["o"])
+    for pl in _plans(c):
+        ks += ["%s:%s" % (d, x) for d, x in zip(("ids", "parents", "log", "rev", "consumer"), pl)]
     return ks
 
 
-def _idv(i, kind, k=0):
-    """the revision id i in another hashable type (real logs carry 20-byte ids; nothing may depend on ids being ints)"""
+# ---------------------------------------------------------------- the ways one and the same log is handed to toposort()
+class _BytesSub(bytes):
+    """a bytes subclass: equal to, and hashing like, the plain bytes"""
+
+
+class _Seq(collections.abc.Sequence):
+    """a sized, indexable container with neither __bool__ nor __iter__ of its own"""
+    def __init__(self, l):
+        self._l = list(l)
+
+    def __len__(self):
+        return len(self._l)
+
+    def __getitem__(self, i):
+        return self._l[i]
+
+
+class _Iterable:
+    """a re-iterable object with nothing but __iter__ (no len, no indexing, always truthy)"""
+    def __init__(self, l):
+        self._l = l
+
+    def __iter__(self):
+        return iter(self._l)
+
+
+class _DictSub(dict):
+    pass
+
+
+_M61 = 2 ** 61 - 1        # hash(k * _M61) == 0 for every int k on a 64-bit CPython
+
+ID_KINDS = ["int", "bytes", "str", "tuple", "mixed", "short-bytes", "short-str", "negative", "same-hash", "equal-other-type",
+            "bytes-subclass", "real-revisions"]
+PARENTS_KINDS = ["list", "tuple", "deque", "sequence-no-bool", "userlist", "frozenset", "dict-keys"]
+LOG_KINDS = ["list", "tuple", "deque", "dict-values", "generator", "iterator", "iter-only-object"]
+REV_KINDS = ["dict", "extra-keys", "ordered-dict", "dict-subclass", "mappingproxy"]
+CONSUMERS = ["list", "next+annotate", "interleaved"]
+
+
+def _idv(i, kind, k=0, parent=False):
+    """the revision id i in another hashable type (real logs carry 20-byte ids; nothing may depend on ids being ints);
+    parent=True: the spelling used inside a parents container"""
     if kind == "bytes":
         return i.to_bytes(20, "big")
     if kind == "str":
@@ -131,31 +245,193 @@ def _idv(i, kind, k=0):
         return (i, "x")
     if kind == "mixed":
         return [i, i.to_bytes(20, "big"), "rev-%d" % i, (i,)][(i + k) % 4]
+    if kind == "short-bytes":
+        return i.to_bytes((i.bit_length() + 7) // 8, "big")          # 0 -> b"" (falsy)
+    if kind == "short-str":
+        return "%d" % i if i else ""                                   # 0 -> "" (falsy)
+    if kind == "negative":
+        return -i                                                      # hash(-1) == hash(-2)
+    if kind == "same-hash":
+        return i * _M61                                                # every id has hash 0
+    if kind == "equal-other-type":
+        return (bool(i) if i < 2 else float(i)) if parent else i       # True == 1, 0 == False, 7.0 == 7
+    if kind == "bytes-subclass":
+        b = i.to_bytes(20, "big")
+        return _BytesSub(b) if parent == (i % 3 != 0) else b
     return i
+
+
+def _real_revisions(spec):
+    """the log as Revision(...).to_dict() dictionaries whose ids are the computed sha1 ({label: dict}); None when the
+    labelled graph cannot be built bottom-up"""
+    from swh.model.model import Revision, RevisionType
+    todo = {i: ps for i, ps in spec}
+    if len(todo) != len(spec):
+        return None
+    dicts = {}
+    while todo:
+        ready = [i for i, ps in todo.items() if all(p in dicts for p in ps)]
+        if not ready:
+            return None
+        for i in ready:
+            rev = Revision(message=b"revision %d" % i, author=None, committer=None, date=None, committer_date=None,
+                           type=RevisionType.GIT, directory=bytes(20), synthetic=False,
+                           parents=tuple(dicts[p]["id"] for p in todo.pop(i)))
+            dicts[i] = rev.to_dict()
+    return dicts
+
+
+def _plans(c):
+    """which (ids, parents, log, rev, consumer) combinations this case is sorted with, besides the plain one; a function of
+    the case alone (its field v), so that a replay does the same"""
+    n = len(c["log"])
+    v = c.get("v", n)
+    kind4 = ["bytes", "str", "tuple", "mixed"][n % 4]
+    if n <= 5:
+        plans = [(kind4, "tuple", "list", "extra-keys", "list"),
+                 ("int", "list", "generator", "dict", "list"),
+                 ("int", "list", "iterator", "dict", "list")]
+    else:       # longer logs: the same three spellings, one per case
+        plans = [(kind4, "tuple", ["list", "generator", "iterator"][v % 3], "extra-keys", "list")]
+    r = random.Random(v)
+    for _ in range(min(c.get("k", 1), 3) if n < 100 else 1):
+        idk = r.choice(ID_KINDS)
+        if idk == "same-hash" and n > 64 or idk == "real-revisions" and n > 13:      # quadratic / slow to build
+            idk = "bytes"
+        plans.append((idk, r.choice(PARENTS_KINDS), r.choice(LOG_KINDS), r.choice(REV_KINDS), r.choice(CONSUMERS)))
+    return plans
+
+
+def _mk_parents(ps, kind):
+    if kind == "tuple":
+        return tuple(ps)
+    if kind == "deque":
+        return collections.deque(ps)
+    if kind == "sequence-no-bool":
+        return _Seq(ps)
+    if kind == "userlist":
+        return collections.UserList(ps)
+    if kind == "frozenset":
+        return frozenset(ps)
+    if kind == "dict-keys":
+        return dict.fromkeys(ps).keys()
+    return list(ps)
+
+
+def _mk_rev(d, kind):
+    if kind == "extra-keys":       # keys named like the sort's own variables, and what a storage row carries
+        d.update(message=b"m", date=None, children=[], in_degree=7, queue=None, parent=None, rev=None)
+    if kind == "ordered-dict":
+        return collections.OrderedDict(sorted(d.items(), key=lambda kv: kv[0] != "parents"))
+    if kind == "dict-subclass":
+        return _DictSub(d)
+    if kind == "mappingproxy":
+        return types.MappingProxyType(d)
+    return d
+
+
+def _mk_log(revs, kind):
+    if kind == "tuple":
+        return tuple(revs)
+    if kind == "deque":
+        return collections.deque(revs)
+    if kind == "dict-values":
+        return dict(enumerate(revs)).values()
+    if kind == "generator":
+        return (r for r in revs)
+    if kind == "iterator":
+        return iter(tuple(revs))
+    if kind == "iter-only-object":
+        return _Iterable(revs)
+    return revs
+
+
+def _consume(toposort, mklog, kind):
+    """the outputs (lists of yielded revisions) of one or two complete sorts of the log"""
+    if kind == "next+annotate":
+        g, out = toposort(mklog()), []
+        while True:
+            try:
+                r = next(g)
+            except StopIteration:
+                return [out]
+            out.append(r)
+            if isinstance(r, dict):        # what a consumer does with a revision it got: the graph stays what it was
+                r["seen"] = len(out)
+                r["parents"] = tuple(r["parents"])
+    if kind == "interleaved":
+        g0 = toposort(mklog())
+        next(g0, None)                     # a third sort of the same log, abandoned after its first revision, still alive
+        live = [(toposort(mklog()), []), (toposort(mklog()), [])]
+        outs = [o for _, o in live]
+        while live:
+            for g, o in live[:]:
+                try:
+                    o.append(next(g))
+                except StopIteration:
+                    live.remove((g, o))
+        return outs
+    return [list(toposort(mklog()))]
+
+
+def _describe(plan):
+    return "ids=%s parents=%s log=%s rev=%s consumer=%s" % plan
+
+
+def _variant(toposort, spec, plan):
+    """sort the log spelled according to plan; the outputs as lists of the spec's labels"""
+    idk, park, logk, revk, cons = plan
+    real = None
+    if idk == "real-revisions":
+        try:
+            real = _real_revisions(spec)
+        except Exception:
+            real = None                    # the library cannot build them (not this property's business): fall back
+        if real is None:
+            idk = "bytes"
+    back, revs = {}, []
+    for i, ps in spec:
+        if real is not None:
+            d = dict(real[i])
+            d["parents"] = _mk_parents(d["parents"], park)
+            pids = [real[p]["id"] for p in ps]
+        else:
+            pids = [_idv(p, idk, 0, True) for p in ps]
+            d = {"id": _idv(i, idk), "parents": _mk_parents(pids, park)}
+        back[d["id"]] = i
+        for p, pid in zip(ps, pids):
+            back[pid] = p
+        revs.append(_mk_rev(d, revk))
+    return [[back[r["id"]] for r in out] for out in _consume(toposort, lambda: _mk_log(revs, logk), cons)]
 
 
 def impl(c):
     from swh.model.toposort import toposort
-    log = [{"id": i, "parents": list(ps)} for i, ps in c["log"]]
+    from .core import exc_class
+    spec = c["log"]
+    log = [{"id": i, "parents": list(ps)} for i, ps in spec]
     try:
-        out = [r["id"] for r in toposort(log)]
-        # same log with ids of other hashable types, parents as tuples, extra keys: the order must be the same
-        kind = ["bytes", "str", "tuple", "mixed"][len(c["log"]) % 4]
-        back = {}
-        for i, ps in c["log"]:
-            for x in [i] + list(ps):
-                back[_idv(x, kind)] = x
-        log2 = [{"id": _idv(i, kind), "parents": tuple(_idv(p, kind) for p in ps), "message": b"m", "date": None} for i, ps in c["log"]]
-        out2 = [back[r["id"]] for r in toposort(log2)]
-        if out2 != out:
-            return {"ok": out, "ok_generator": out, "ok_iterator": out, "other_id_types": [kind, out2[:12]]}
-        # the same log as one-shot iterables (a generator, an iterator), as Storage.revision_log() yields it
-        out_gen = [r["id"] for r in toposort(r for r in log)]
-        out_it = [r["id"] for r in toposort(iter(tuple(log)))]
-        return {"ok": out, "ok_generator": out_gen, "ok_iterator": out_it}
+        yielded = list(toposort(log))
+        out = [r["id"] for r in yielded]
     except Exception as e:
-        from .core import exc_class
         return {"error": exc_class(e)}
+    res = {"ok": out, "variants": []}
+    # "yields each REVISION": what comes out still is the revision of the log (its id, its parents)
+    want = {i: list(ps) for i, ps in spec}
+    try:
+        changed = [r["id"] for r in yielded if list(r["parents"]) != want.get(r["id"])]
+    except Exception as e:
+        changed = ["?" + exc_class(e)]
+    if changed:
+        res["changed"] = changed[:8]
+    for plan in _plans(c):
+        try:
+            outs = _variant(toposort, spec, plan)
+            diff = [o for o in outs if o != out]
+            res["variants"].append([_describe(plan), diff[0] if diff else "same"])
+        except Exception as e:
+            res["variants"].append([_describe(plan), "error:" + exc_class(e)])
+    return res
 
 
 REQUESTS_NEED_IMPL = True
@@ -168,6 +444,9 @@ def requests(c, ires):
     if trace is not None:
         reqs.append("run %s %s" % (l, enc_ids(trace)))
         reqs.append("chk %s %s" % (l, enc_ids(trace)))
+        for _, o in ires.get("variants", []):
+            if isinstance(o, list):      # another order than the plain sort's: the proved checker decides on it too
+                reqs.append("chk %s %s" % (l, enc_ids(o)))
     return reqs
 
 
@@ -176,7 +455,20 @@ def model(c, resp):
     if len(resp) > 1:
         res["is_model_run"] = resp[1]
         res["is_topo_order"] = resp[2]
+        res["is_topo_order_variants"] = resp[3:]
     return res
+
+
+def _property(log, out):
+    """the property's conclusion on one output (a list of ids), in pure Python"""
+    if sorted(out) != sorted(i for i, _ in log):
+        return "output is not a permutation of the log: each revision must appear exactly once"
+    pos = {i: k for k, i in enumerate(out)}
+    for i, ps in log:
+        for p in ps:
+            if pos[p] >= pos[i]:
+                return f"revision {i} is emitted before its parent {p}"
+    return None
 
 
 def oracle(c, ires, mres):
@@ -185,21 +477,24 @@ def oracle(c, ires, mres):
         return "toposort raised " + ires.get("error", "?")
     out = ires["ok"]
     log = c["log"]
-    if "other_id_types" in ires:
-        return "the order changes when the ids are %s instead of ints (parents given as tuples): %s instead of %s" % (
-            ires["other_id_types"][0], ires["other_id_types"][1], out[:12])
-    if ires.get("ok_generator") != out or ires.get("ok_iterator") != out:
-        return "the result depends on whether the log is a list or a one-shot iterable: %s / %s / %s" % (
-            out[:8], ires.get("ok_generator", [])[:8], ires.get("ok_iterator", [])[:8])
-    if sorted(out) != sorted(i for i, _ in log):
-        return "output is not a permutation of the log: each revision must appear exactly once"
-    pos = {i: k for k, i in enumerate(out)}
-    for i, ps in log:
-        for p in ps:
-            if pos[p] >= pos[i]:
-                return f"revision {i} is emitted before its parent {p}"
+    why = _property(log, out)
+    if why:
+        return why
+    if "changed" in ires:
+        return "the revisions yielded for the ids %s do not have the parents they have in the log" % (ires["changed"],)
     if mres.get("is_topo_order") != "ok true":
         return "the proved checker is_topo_order rejects the implementation's output: " + str(mres.get("is_topo_order"))
+    answers = list(mres.get("is_topo_order_variants", []))
+    for desc, o in ires.get("variants", []):
+        if o == "same":
+            continue
+        if not isinstance(o, list):
+            return "toposort raised %s for the same log given with %s" % (o[6:], desc)
+        why = _property(log, o)
+        if why:
+            return "the same log given with %s: %s (%s instead of %s)" % (desc, why, o[:12], out[:12])
+        if (answers.pop(0) if answers else None) != "ok true":
+            return "the proved checker is_topo_order rejects the output for the same log given with %s" % desc
     return None
 
 
@@ -211,20 +506,28 @@ def compare(c, ires, mres):
     return None
 
 
+def _keep(c, log):
+    d = {"log": log}
+    for k in ("v", "o"):
+        if k in c:
+            d[k] = c[k]
+    return d
+
+
 def shrink(c):
     log = c["log"]
     size = len(log) // 2
     while size >= 8:                      # long logs: drop whole chunks first
         for a in range(0, len(log), size):
             gone = {i for i, _ in log[a:a + size]}
-            yield {"log": [[i, [p for p in ps if p not in gone]] for i, ps in log if i not in gone]}
+            yield _keep(c, [[i, [p for p in ps if p not in gone]] for i, ps in log if i not in gone])
         size //= 2
     for k in range(len(log)):
         gone = log[k][0]
-        yield {"log": [[i, [p for p in ps if p != gone]] for j, (i, ps) in enumerate(log) if j != k]}
+        yield _keep(c, [[i, [p for p in ps if p != gone]] for j, (i, ps) in enumerate(log) if j != k])
     for k, (i, ps) in enumerate(log):
         for j in range(len(ps)):
-            yield {"log": [[i2, (ps2[:j] + ps2[j + 1:]) if k2 == k else ps2] for k2, (i2, ps2) in enumerate(log)]}
+            yield _keep(c, [[i2, (ps2[:j] + ps2[j + 1:]) if k2 == k else ps2] for k2, (i2, ps2) in enumerate(log)])
 
 ANCHORS = [("swh/model/toposort.py", "toposort")]
 
